@@ -7,6 +7,7 @@ import (
 	"runtime/trace"
 
 	"github.com/bits-and-blooms/bitset"
+	"github.com/gordian-engine/gordian/gcrypto"
 	"github.com/gordian-engine/gordian/internal/gchan"
 	"github.com/gordian-engine/gordian/tm/tmconsensus"
 	"github.com/gordian-engine/gordian/tm/tmengine/tmelink"
@@ -244,41 +245,47 @@ func (s *ChattyStrategy) broadcastUpdatesOnly(ctx context.Context, prev, cur tmc
 		}
 	}
 
-	// Compare the count of set bits in the signature bitsets
+	// Compare the signature bitsets per block hash
 	// to determine if we need to broadcast updates for those.
+	// Comparing only the count of the union across all block hashes is insufficient:
+	// a validator signing a second block hash (i.e. a double sign)
+	// grows the view without changing that count.
 
-	prevPrevoteBitset := bitset.New(0)
-	var bs bitset.BitSet
-	for _, p := range prev.PrevoteProofs {
-		p.SignatureBitSet(&bs)
-		prevPrevoteBitset.InPlaceUnion(&bs)
-	}
-	curPrevoteBitset := bitset.New(0)
-	for _, p := range cur.PrevoteProofs {
-		p.SignatureBitSet(&bs)
-		curPrevoteBitset.InPlaceUnion(&bs)
-	}
-	if curPrevoteBitset.Count() != prevPrevoteBitset.Count() {
+	if proofsChanged(prev.PrevoteProofs, cur.PrevoteProofs) {
 		if !s.broadcastPrevotes(ctx, cur) {
 			return false
 		}
 	}
 
-	prevPrecommitBitset := bitset.New(0)
-	for _, p := range prev.PrecommitProofs {
-		p.SignatureBitSet(&bs)
-		prevPrecommitBitset.InPlaceUnion(&bs)
-	}
-	curPrecommitBitset := bitset.New(0)
-	for _, p := range cur.PrecommitProofs {
-		p.SignatureBitSet(&bs)
-		curPrecommitBitset.InPlaceUnion(&bs)
-	}
-	if curPrecommitBitset.Count() != prevPrecommitBitset.Count() {
+	if proofsChanged(prev.PrecommitProofs, cur.PrecommitProofs) {
 		if !s.broadcastPrecommits(ctx, cur) {
 			return false
 		}
 	}
 
 	return true
+}
+
+// proofsChanged reports whether cur contains a block hash or a signature
+// that is not present in prev.
+func proofsChanged(prev, cur map[string]gcrypto.CommonMessageSignatureProof) bool {
+	if len(cur) != len(prev) {
+		return true
+	}
+
+	var prevBS, curBS bitset.BitSet
+	for hash, curProof := range cur {
+		prevProof, ok := prev[hash]
+		if !ok {
+			return true
+		}
+
+		prevProof.SignatureBitSet(&prevBS)
+		curProof.SignatureBitSet(&curBS)
+		if !curBS.Equal(&prevBS) {
+			return true
+		}
+	}
+
+	return false
 }
